@@ -410,3 +410,81 @@ fn ack_timeouts_fire_exactly_at_deadline() {
     for f in &fails { println!("BOUNDED-FAIL ack_timeouts_fire_exactly_at_deadline {}", f); }
     assert!(fails.is_empty());
 }
+
+/// C08 as worded: "a driver that services it only at reported times and after each event it delivers always makes progress:
+/// against a responsive broker every submitted operation completes successfully within a bounded number of steps".
+/// The driver below never calls service() unless get_next_service_timepoint() says so (the two real event loops behave
+/// like this), offers `capacity` bytes of output per call, reports write completion, and lets the broker answer.
+fn drive_by_reported_times(kinds: &[Kind], capacity: usize, rm: Option<u16>, drain: PostReconnectQueueDrainPolicy, mode: ProtocolMode, keep_alive: Option<u16>, payload: usize) -> Result<(), String> {
+    let cfg = Cfg { policy: OfflineQueuePolicy::PreserveAll, drain, mode, retries: None, keep_alive, ack_timeout: None };
+    let mut r = Runner { h: H::new(cfg), acked_upto: 0, what: String::new() };
+    let x = r.h.open(); r.step(x, "open")?;
+    let mut tags: Vec<u64> = Vec::new();
+    let mut submitted = false;
+    let mut spins = 0u32;
+    let mut steps = 0u32;
+    let budget = 400 + 40 * (kinds.len() as u32) * ((payload / capacity.max(1)) as u32 + 4);
+    loop {
+        steps += 1;
+        if steps > budget { let now = r.h.now; let nst = r.h.ps.get_next_service_timepoint(&now).map(|t| t - now);
+            return Err(format!("no completion within {} driver steps: results {:?}, state {:?}, current_operation {:?}, pending_write_completion {}, next service time {:?}",
+            budget, r.h.results.lock().unwrap().clone(), r.h.ps.state, r.h.ps.current_operation, r.h.ps.pending_write_completion, nst)); }
+        if submitted && tags.iter().all(|t| r.h.result_count(*t) > 0) { break; }
+        // events first: a pending write completes, the broker answers whatever it has received completely
+        if r.h.ps.pending_write_completion { let x = r.h.write_completion(); r.step(x, "write completion")?; continue; }
+        if r.h.ps.state == ProtocolStateType::PendingConnack && r.h.sent_this_connection.iter().any(|p| matches!(&**p, MqttPacket::Connect(_))) && r.h.ps.current_settings.is_none() {
+            let x = r.h.connack(false, rm); r.step(x, "connack")?; continue;
+        }
+        if r.h.ps.state == ProtocolStateType::Connected && !submitted {
+            for k in kinds { let t = r.h.submit_sized(*k, payload); tags.push(t); }
+            submitted = true; continue;
+        }
+        if r.acked_upto < r.h.sent_this_connection.len() { r.ack(false)?; continue; }
+        // no event left: the driver sleeps until the reported service time
+        let now = r.h.now;
+        match r.h.ps.get_next_service_timepoint(&now) {
+            None => return Err(format!("lost wake-up: next service time is NEVER although operations are unresolved (state {:?}, current_operation {:?}, queues hp={} resubmit={} user={}, in flight {})",
+                r.h.ps.state, r.h.ps.current_operation, r.h.ps.high_priority_operation_queue.len(), r.h.ps.resubmit_operation_queue.len(), r.h.ps.user_operation_queue.len(),
+                r.h.ps.pending_publish_operations.len() + r.h.ps.pending_non_publish_operations.len())),
+            Some(t) => {
+                if t > now { r.h.now = t; }
+                let sent_before = r.h.sent.len();
+                let results_before = r.h.results.lock().unwrap().len();
+                let state_before = r.h.ps.state;
+                let x = r.h.service(capacity);
+                let produced = match &x { Ok(n) => *n, Err(_) => 0 };
+                r.step(x, "service at reported time")?;
+                // "never keeps answering 'service me now' without producing output, completing something or changing state"
+                if produced == 0 && r.h.sent.len() == sent_before && r.h.results.lock().unwrap().len() == results_before && r.h.ps.state == state_before && t <= now {
+                    spins += 1;
+                    if spins > 3 { return Err("idle spinning: service demanded now, but four consecutive calls produced nothing".into()); }
+                } else { spins = 0; }
+            }
+        }
+    }
+    for t in &tags { match r.h.result_of(*t) { Some(Outcome::Ok(_)) => {}, other => return Err(format!("operation #{} did not complete successfully: {:?}", t, other)) } }
+    Ok(())
+}
+
+#[test]
+fn service_time_contract_never_strands_work() {
+    let thorough = super::tier_thorough();
+    let mut cases = 0u64;
+    let mut fails: Vec<String> = Vec::new();
+    let kind_sets: Vec<Vec<Kind>> = { let mut v: Vec<Vec<Kind>> = KINDS.iter().map(|k| vec![*k]).collect();
+        for a in KINDS { for b in KINDS { v.push(vec![a, b]); } }
+        if thorough { for a in KINDS { for b in KINDS { for c in KINDS { v.push(vec![a, b, c]); } } } }
+        v };
+    for kinds in &kind_sets { for capacity in [4usize, 5, 16, 64, 4096] { for rm in [None, Some(1u16)] { for drain in [PostReconnectQueueDrainPolicy::None, PostReconnectQueueDrainPolicy::OneAtATime] {
+        for mode in [ProtocolMode::Mqtt5, ProtocolMode::Mqtt311] { for payload in [3usize, 300] {
+            if payload == 300 && capacity < 16 && !thorough { continue; }
+            cases += 1;
+            if let Err(e) = drive_by_reported_times(kinds, capacity, rm, drain, mode, Some(30), payload) {
+                if fails.len() < 25 { fails.push(format!("kinds={:?} capacity={} rm={:?} drain={:?} mode={:?} payload={} :: {}", kinds, capacity, rm, drain, mode, payload, e)); }
+            }
+        } }
+    } } } }
+    println!("BOUNDED service_time_contract_never_strands_work cases={} bound=<={} operations x output capacity {{4,5,16,64,4096}} x receive maximum {{none,1}} x 2 drain policies x 2 versions x payload {{3,300}} bytes; driver services only at reported times against a responsive broker", cases, if thorough { 3 } else { 2 });
+    for f in &fails { println!("BOUNDED-FAIL service_time_contract_never_strands_work {}", f); }
+    assert!(fails.is_empty());
+}
